@@ -745,7 +745,7 @@ def _eval_count(e, count):
     return None
 
 
-@rule('ASM-DISPATCH', ['C14'], configs=('def',), floor=1, thorough_configs=('nostd-opt',))
+@rule('ASM-DISPATCH', ['C14', 'C06'], configs=('def',), floor=1, thorough_configs=('nostd-opt',))
 def asm_dispatch(ctx):
     """A hand-written assembly path that clamps its loads (it re-reads the last byte when the input runs out)
     is only dispatched to when it cannot reach the clamp: the call is control dependent on a comparison
@@ -789,8 +789,17 @@ def asm_dispatch(ctx):
                 # after one and after every further eight halvings.
                 nc = norm_cmp(ok, True)
                 lhs_has_len = any(x[0] == 'len' or (x[0] == 'call' and x[1].split('::')[-1] == 'len') for x in expr_walk(nc[1]))
+                # the bytes left are len - pos; the buffer reader keeps counting `pos` past the end of a truncated chunk
+                # (read_u8 substitutes zero and increments), so a plain subtraction can underflow: it has to saturate
+                plain_sub = any(x[0] == 'bin' and x[1].startswith('Sub') and
+                                any(y[0] == 'call' and y[1].split('::')[-1] == 'len' for y in expr_walk(x[2])) and
+                                any(y[0] == 'call' and y[1].split('::')[-1] == 'pos' for y in expr_walk(x[3]))
+                                for side in (nc[1], nc[2]) for x in expr_walk(side))
                 if lhs_has_len:
                     short = 'the comparison bounds the bytes left from above, not from below'
+                elif plain_sub:
+                    short = ('the bytes left are computed as `len - pos` with a plain subtraction, but pos runs past len on a truncated chunk '
+                             '(read_u8 keeps incrementing it): overflow panic in debug builds, a huge value that lets the assembly path in on release')
                 else:
                     for cntv in range(1, 33):
                         bv = _eval_count(nc[1], cntv)
